@@ -381,7 +381,7 @@ class Node(object):
         Decides if priority preemption is needed, finds the individual to preempt, and preempt them.
         """
         if self.priority_preempt != False:
-            in_service = [s.cust for s in self.servers if not s.cust.is_blocked]
+            in_service = [s.cust for s in self.servers if not s.cust.is_blocked and not s.offduty]
             least_priority = max([ind.priority_class for ind in in_service], default=individual.priority_class)
             if individual.priority_class < least_priority:
                 least_prioritised_individuals = [
